@@ -201,3 +201,9 @@ func spec_rowsTs(t [][]int, n int) string { panic("spec") }
 //@ loop 2: invariant s == before(s) + spec_ints(row, idx2) && row == b.vnode.GTable[index]
 //@ emits "?AnalyTable" assert AnalyTable == "\nvar StateActionArray :number[][] =[\n\t%s \n]\n"
 //@ emits "?AnalyTable" assert exists h string :: s == h + spec_rowsTs(b.vnode.GTable, len(b.vnode.GTable))
+
+// C19 (complete output): the epilogue written last is the text after the second %% of the grammar file, byte for byte
+//@ func (*TsBuilder).buildUionAndCode
+//@ props_tagged_only C19
+//@ requires b != nil && b.vnode != nil && b.vnode.RuleVistor != nil
+//@ ensures [C19] b.CodeLast == b.vnode.CodeCpy
